@@ -120,7 +120,7 @@ func runWm(s WmScenario) ([]WmEvent, WmResult) {
 	res := WmResult{ID: s.ID}
 	w := watermark.New()
 	wmProg.reset(w)
-	defer w.Stop()
+	defer stopWm(w)
 	tr := &wmTrace{}
 	var marks, waits int
 	var cmu sync.Mutex
@@ -361,7 +361,7 @@ func waitClient(wg *sync.WaitGroup, tr *wmTrace, g int, calls []WmCall, w *water
 func runStampede(id string, n int, ts int) ([]WmEvent, WmResult) {
 	w := watermark.New()
 	wmProg.reset(w)
-	defer w.Stop()
+	defer stopWm(w)
 	res := WmResult{ID: id, Waits: n, Marks: 2}
 	ev := []WmEvent{{Ev: "Inv", G: 1, Kind: "b", Ts: ts}}
 	w.Begin(uint64(ts))
@@ -554,4 +554,15 @@ func cmdWm(args []string) int {
 	writeJSON(join(*out, "summary.json"), map[string]any{"traces": len(scen), "events": line, "offsets": offsets,
 		"procs": maxP, "nidx": maxI, "results": results, "scenarios": scen})
 	return 0
+}
+
+// stopWm: Stop waits for the consumer goroutine; a consumer that is blocked for good (which the
+// scenario has then already reported as stuck) must not take the driver with it.
+func stopWm(w *watermark.WaterMark) {
+	done := make(chan struct{})
+	go func() { w.Stop(); close(done) }()
+	select {
+	case <-done:
+	case <-time.After(10 * time.Second):
+	}
 }
